@@ -152,6 +152,8 @@ class Gen:
                                        "tab", "pipe_sq", "lf"])
             cfg["locale"] = r.choice(["utf-8", "utf-8", "latin-1", "cp1252"])
             cfg["bufsize"] = r.choice([4096, 8192, 65536])
+        if cfg["storage"] == "csv" and p.get("flush_vary"):
+            cfg["flush_on_insert"] = r.random() < 0.6
         if cfg["storage"] == "csv" and p.get("cfg_dialects"):
             cfg["dialect"] = r.choice(["default", "default", "semicolon_all",
                                        "tab", "pipe_sq", "lf"])
@@ -256,8 +258,19 @@ class Gen:
         if not rich:
             return catalog.time_to_json(t)
         c = r.random()
-        if c < 0.35:
+        if c < 0.3:
             return catalog.time_to_json(t)
+        if c < 0.4:
+            # aware in a named zone (tzinfo is a ZoneInfo, not a fixed offset)
+            zone = r.choice(["Europe/London", "Africa/Abidjan",
+                             "America/New_York", "Asia/Kathmandu",
+                             "Australia/Lord_Howe", "UTC"])
+            local = t.astimezone(catalog._zone(zone))
+            j = {"iso": local.replace(tzinfo=None).isoformat(),
+                 "zone": zone}
+            if local.fold:
+                j["fold"] = 1
+            return j
         if c < 0.65 or not allow_naive:
             tz = _dt.timezone(_dt.timedelta(minutes=r.choice(OFFSETS_MIN)))
             return catalog.time_to_json(t.astimezone(tz))
@@ -347,6 +360,9 @@ class Gen:
             kind = "cmp"
         if kind == "noop":
             return {"k": "noop", "attr": attr}
+        if attr in ("tag", "field") and r.random() < self.prof.get(
+                "premap_prob", 0.06):
+            return self.gen_premap_leaf(attr)
         q = {"k": kind, "attr": attr}
         vals = None
         if attr == "tag":
@@ -439,6 +455,41 @@ class Gen:
                 q["args"] = [r.choice(["x", "y", "m", "1"])]
         return q
 
+    def gen_premap_leaf(self, attr):
+        """A query whose path starts with a function of the whole tag / field
+        set (TagQuery().map(f)...)."""
+        r = self.rng
+        a = self.alpha
+        name = r.choice(["dict_len", "dict_get_a", "dict_keys"])
+        q = {"attr": attr, "premaps": [name]}
+        if name == "dict_len":
+            if attr == "field" and r.random() < 0.5:
+                q.update(k="cmp", op=r.choice(["==", ">=", "<", "!="]),
+                         rhs=r.choice([1, 2, 3]))
+            else:
+                q.update(k="test", f=r.choice(["num_ge", "num_even",
+                                               "num_pos"]))
+                if q["f"] == "num_ge":
+                    q["args"] = [r.choice([1, 2])]
+        elif name == "dict_get_a":
+            if attr == "tag" and r.random() < 0.5:
+                q.update(k="cmp", op=r.choice(["==", "!="]),
+                         rhs=r.choice(a["tv"]) or "x")
+            elif attr == "field" and r.random() < 0.5:
+                q.update(k="cmp", op=r.choice(["==", "!=", ">"]),
+                         rhs=r.choice([1, 2, 0.5]))
+            else:
+                q.update(k="test", f=r.choice(["is_none", "not_none"]))
+        else:
+            keys = a["tk"] if attr == "tag" else a["fk"]
+            if attr == "tag" and r.random() < 0.5:
+                q.update(k="cmp", op=r.choice(["==", "!="]),
+                         rhs=",".join(sorted(r.sample(keys, min(
+                             len(keys), r.choice([1, 2]))))) or "x")
+            else:
+                q.update(k="test", f="str_has", args=[r.choice(keys) or "a"])
+        return q
+
     def gen_query(self, depth=None):
         r = self.rng
         if depth is None:
@@ -511,9 +562,10 @@ class Gen:
                     spec[n] = {"static": d}
                 else:
                     fn = r.choice(["merge_const", "only_const", "identity",
-                                   "empty", "upper_values", "none_values"])
+                                   "empty", "upper_values", "none_values",
+                                   "inplace_merge"])
                     s = {"fn": fn}
-                    if fn in ("merge_const", "only_const"):
+                    if fn in ("merge_const", "only_const", "inplace_merge"):
                         s["arg"] = d
                     spec[n] = s
             elif n == "fields":
@@ -523,9 +575,10 @@ class Gen:
                     spec[n] = {"static": d}
                 else:
                     fn = r.choice(["merge_const", "only_const", "identity",
-                                   "empty", "scale", "incr_all"])
+                                   "empty", "scale", "incr_all",
+                                   "inplace_merge"])
                     s = {"fn": fn}
-                    if fn in ("merge_const", "only_const"):
+                    if fn in ("merge_const", "only_const", "inplace_merge"):
                         s["arg"] = d
                     elif fn == "scale":
                         s["arg"] = [r.choice(a["fk"]), r.choice([2, 0.5, 1,
@@ -731,13 +784,13 @@ class Gen:
         a = self.alpha
         v = r.choice(self.BAD_VALUES[slot])
         if slot == "tag_key":
-            return "tags", {"$": "pairs", "v": [[v, "x"]]}
+            return "tags", {"$": "pairs", "v": [[v, r.choice(["x", None])]]}
         if slot == "tag_value":
             base = [[k, x] for k, x in self.gen_tags().items()]
             return "tags", {"$": "pairs",
                             "v": base + [[r.choice(a["tk"]), v]]}
         if slot == "field_key":
-            return "fields", {"$": "pairs", "v": [[v, 1]]}
+            return "fields", {"$": "pairs", "v": [[v, r.choice([1, None])]]}
         if slot == "field_value":
             base = [[k, x] for k, x in self.gen_fields().items()]
             return "fields", {"$": "pairs",
@@ -877,7 +930,9 @@ class Gen:
                 if m is not None:
                     op["m"] = m
             n = r.choice([0, 0, 1, 1, 2, 3, 5])
-            op["cfault"] = {"which": which, "n": n, "kind": "raise"}
+            op["cfault"] = {"which": which, "n": n,
+                            "kind": r.choice(["raise", "raise", "raise",
+                                              "interrupt"])}
             return self.route(op)
         if c == "gen_raise":
             pts = [self.gen_point() for _ in range(r.choice([0, 1, 2, 3]))]
